@@ -103,6 +103,38 @@ CLAIMED = {
                   "correspondence (theorem in progress)",
         category="translation_validation",
         ref="6 C06"),
+    "C08": dict(
+        text="Spec.C08 (rows permuted by sigma and nothing else changed - labels, levels, slices, kinds, "
+             "fitted transform parameters - under row permutations; nothing changed at all under index "
+             "relabelling, column reordering, added / removed unused columns) is evaluated by the Lean "
+             "driver on pairs of real runs (8 variants per design, incl. non-unique string and unsorted "
+             "float indexes, an all-NaN unused column). Lean theorems about the model: column lookup is "
+             "by name and unaffected by extra or reordered columns (C08_col_lookup_extra / _perm), the "
+             "fitted mean of center is invariant under row permutations and center commutes with them "
+             "(C08_mean_perm, C08_center_perm).",
+        note="Trusted: Lean kernel; the row index does not exist in the model (index relabelling is "
+             "decided by the runs only); permutation invariance of level sorting and of scale/bs/poly "
+             "parameters is observed (tolerance 1e-9), not yet proved; float sums are order dependent at "
+             "rounding level.",
+        technique="relational spec evaluated on pairs of real runs + Lean 4 proof of the order-independent "
+                  "parts of the model",
+        category="translation_validation",
+        ref="6 C08"),
+    "C09": dict(
+        text="Lean 4 model of var_names (CallVarsExtractor over the lazy call tree) and of the NA step of "
+             "design_matrices, with theorems: the visitor finds exactly the variable leaves incl. keyword "
+             "and nested-call arguments (argVars_eq / atomVars_eq, mutual structural induction), drop = "
+             "selected columns restricted to complete rows, error <=> an incomplete selected row, pass "
+             "keeps all rows, other actions refused, unused columns ignored, row alignment of all columns; "
+             "accepted actions regenerated from matrices.py and tied by `decide`. Spec.C09 (used variables "
+             "from the AST, drop run = run on the filtered frame, error policy, pass rule against the "
+             "imputed reference) is evaluated by the driver on real runs over generated missingness "
+             "patterns in used and unused columns.",
+        note="Trusted: Lean kernel; translator; pandas isna / boolean selection as modelled; pass is "
+             "judged only for missing numeric variables in plain variables / pointwise calls (a missing "
+             "categorical value under pass raises TypeError in sorted(): outside the statement).",
+        technique="Lean 4 proof + relational spec on real runs + model correspondence of var_names / NA step",
+        ref="6 C09"),
     "C10": dict(
         text="Lean 4 theorems about the model of eval_new_data_categoric / GroupSpecificTerm.eval_new_data "
              "/ Config: error mode raises iff a value is unseen (C10_error_iff); in warning/silent mode the "
@@ -136,6 +168,40 @@ CLAIMED = {
         technique="Lean 4 proof (entrywise matrix identities over Int/Rat, no Mathlib) + registry "
                   "translator + exhaustive differential correspondence",
         ref="6 C13"),
+    "C14": dict(
+        text="Lean 4 state-machine models of Center, Scale, BSpline (validation order, knot vector, "
+             "Cox-de Boor recursion as the model of splev, percentile by linear interpolation) and "
+             "Polynomial (three-term recurrence with memoised alpha / norms2) over exact rationals, with 30 "
+             "theorems for all inputs: center mean zero and frozen affine map over any call history, scale "
+             "mean 0 / population variance (ddof 0) / frozen map, bs column counts and validation "
+             "(iff), partition of unity and non-negativity on [lower, upper) by induction on the degree, "
+             "raw powers exact, orthogonality of the recurrence's polynomials for data with > degree "
+             "distinct values, poly frozen once memoised; registry / defaults / params_set / np.std "
+             "keywords regenerated from the source and tied by `decide`. Exhaustive + random differential "
+             "run (direct API and through design_matrices / evaluate_new_data); contract predicates are "
+             "evaluated by the driver on the implementation's output.",
+        note="Trusted: Lean kernel; translator; np.percentile and scipy splev are modelled, their "
+             "agreement rests on the correspondence (tolerance 1e-9; 1e-6 for orthogonal poly with "
+             "offsets >= 1e3); single Mathlib modules are imported in Proofs/ only; span equality of poly "
+             "columns is proved as 'P_k monic of degree k' and tested numerically.",
+        technique="Lean 4 proof (induction on spline degree / recurrence index / call history) + "
+                  "translator + differential correspondence",
+        ref="6 C14"),
+    "C15": dict(
+        text="Lean 4 theorems about the model of response handling: the response must be a single "
+             "one-component term (C15_single_term, iff), y[level] is the 0/1 indicator of the level "
+             "whatever else (C15_subset_value), a numeric response is returned unchanged, prop gives "
+             "(successes, trials) with a constant broadcast, a categorical response is coded with the unit "
+             "row of each observation's level (C15_full_rows). Spec.C15.expected (computed from the "
+             "response expression and the data alone) is compared by the driver with the matrix, levels and "
+             "kind of real designs for 17 response forms x right-hand sides x frames; predictor "
+             "independence, refusal of non-single-term responses and response-less designs are relations "
+             "between real runs.",
+        note="Trusted: Lean kernel; pandas dtype inference; the independence of the predictor matrices "
+             "from the response holds in the model by construction (they are functions of the terms only) "
+             "and is decided for the implementation by the paired runs.",
+        technique="Lean 4 proof + independent expected-response spec evaluated on real output + paired runs",
+        ref="6 C15"),
     "C11": dict(
         text="Lean 4 model of VarLookupDict / Environment.capture / the namespace wiring of "
              "design_matrices and Call.set_type, with 31 theorems for any number of scopes and any "
